@@ -254,6 +254,20 @@ def step (st : State) (w : List String) : State × String :=
               let ede := match info.ede with | some (.raw _ dd) => bytesHex dd | _ => "-"
               (st, head ++ s!" info rc={info.rcode} ad={boolStr info.ad} dnssec={boolStr info.hasDnssec} ede={ede} body " ++ showReply q (some b))))
     | _, _, _ => (st, "bad-op")
+  | ["edns", "hit", path, proto, q, r] =>
+    match parseProto proto, parseQ q, parseR r with
+    | some p, some q, some u =>
+      (match upstream u false q with
+       | none => (st, "bad-op")
+       | some m =>
+         match newCacheEntry m with
+         | none => (st, "miss")
+         | some e =>
+           let wire := path == "w" && wireEligible q
+           let wb := wire && (q.opt.isNone || (q.opt.map (·.version)) == some 0)
+           (st, showReply q (serveGuarded (msgLen true) (msgLen false) consts st.cfg p q wb
+                               (fun q' => .done (some (toMsg e q'))))))
+    | _, _, _ => (st, "bad-op")
   | "edns" :: "tomsg" :: q :: r :: rest =>
     match parseQ q, parseR r with
     | some q, some u =>
